@@ -191,6 +191,31 @@ def run_c17(out, tier, rng):
                     continue
                 if m != "staredit\\scenario.chk" and m not in ["staredit\\wav\\" + a for a in r["audio_sha"]] and mn.get(m) != h:
                     out.violations.append({"oracle": "every other archive member is preserved by the import", "spec": desc(spec), "member": m})
+    # multi-step histories on one long-lived IO object
+    for base in archives()[:1] if tier == "quick" else archives():
+        r = child({"op": "scenario_stale_duration", "base": base, "dest": "absent", "flag": "default", "fault": None})
+        sc = r.get("scenario")
+        out.case("c17:history-duration", json.dumps(desc(r["spec"]), sort_keys=True).encode(), sample={"spec": desc(r["spec"]), "result": sc})
+        if sc is None:
+            out.violations.append({"oracle": "save / re-import / save history completes", "spec": desc(r["spec"]), "error": r.get("harness_error") or r.get("exception")})
+        elif sc["error"] or sc["first"] != 1500 or sc["second"] != 2750 or sc["new_sound"] != 640:
+            out.violations.append({"oracle": "a PlayWav without explicit duration gets the CURRENT file's true duration on every save (1500, then 2750 after the sound was replaced, 640 for the newly imported one)", "spec": desc(r["spec"]), "got": sc})
+        for free in ([0], [0, 2], [1, 3]):
+            r = child({"op": "scenario_sparse_wav", "base": base, "dest": "absent", "flag": "default", "fault": None, "free_slots": free})
+            sc = r.get("scenario")
+            out.case("c17:history-sparse-wav", json.dumps(desc(r["spec"]), sort_keys=True).encode(), sample={"spec": desc(r["spec"]), "result": sc})
+            if sc is None:
+                out.violations.append({"oracle": "import into a map with a sparse sound table completes", "spec": desc(r["spec"]), "error": r.get("harness_error") or r.get("exception")})
+                continue
+            after = {int(k): v for k, v in sc["after"].items()}
+            for k, v in sc["before"].items():
+                if after.get(int(k)) != v:
+                    out.violations.append({"oracle": "sounds already listed in the sound table stay listed in their slot after an import", "spec": desc(r["spec"]), "slot": k, "was": v, "now": after.get(int(k))})
+                    break
+            for n in sc["new"]:
+                if n not in after.values():
+                    out.violations.append({"oracle": "each imported file is listed in the map's sound table", "spec": desc(r["spec"]), "missing": n})
+                    break
     duration_law(out, tier, rng)
 
 
